@@ -17,7 +17,14 @@ SPEC = os.path.join(vf.ROOT, "spec", "Export")
 INVS = ["Converges", "NoStaleRoute", "IdsOK"]
 RANK = {"s1": 2, "s2": 3, "o": 1}
 # scenario -> (ranking, sources split horizon keeps from the observer): see ex_new_source in harness/daemon/event.rs
-SCEN = {"ebgp": (RANK, []), "ibgp": ({"s1": 1, "o": 2, "s2": 3}, ["s2"]), "rs": (RANK, ["s2"])}
+SCEN = {"ebgp": (RANK, []), "ibgp": ({"s1": 1, "o": 2, "s2": 3}, ["s2"]), "rs": (RANK, ["s2"]),
+        "rr": ({"s1": 1, "o": 2, "s2": 3}, []), "confed": ({"s1": 1, "s2": 2, "o": 3}, [])}
+
+
+# scenarios whose world runs on a two-shard table manager, and the shard its dealer (FNV hash of the NLRI) gives each prefix;
+# the harness verifies this mapping on the real manager and refuses to run otherwise
+TWO_SHARDS = ("rr", "confed")
+SHARDS2 = {"p1": 1, "p2": 0, "p3": 1}
 
 
 def ts(xs):
@@ -33,10 +40,13 @@ def materialise(name, k, spec, invs, base, constraint=True):
     rank, suppress = SCEN[k.get("scen", "ebgp")]
     arms = " [] ".join(f'x = "{x}" -> {rank[x]}' for x in k["src"])
     with open(os.path.join(d, f"MC_{name}.tla"), "w") as f:
-        f.write(f"---- MODULE MC_{name} ----\nEXTENDS {base}\ncRank == [x \\in {ts(k['src'])} |-> CASE {arms}]\n====\n")
+        shards = SHARDS2 if k.get("scen") in TWO_SHARDS else {}
+        sarms = " [] ".join(f'x = "{x}" -> {shards.get(x, 0)}' for x in k["prefix"])
+        f.write(f"---- MODULE MC_{name} ----\nEXTENDS {base}\ncRank == [x \\in {ts(k['src'])} |-> CASE {arms}]\n"
+                f"cShard == [x \\in {ts(k['prefix'])} |-> CASE {sarms}]\n====\n")
     cfgp = os.path.join(d, "run.cfg")
     with open(cfgp, "w") as f:
-        f.write(f"CONSTANTS\n  Prefix = {ts(k['prefix'])}\n  Src = {ts(k['src'])}\n  SrcRank <- cRank\n  Obs = \"{k['obs']}\"\n  Suppress = {ts([x for x in suppress if x in k['src']])}\n"
+        f.write(f"CONSTANTS\n  Prefix = {ts(k['prefix'])}\n  Src = {ts(k['src'])}\n  SrcRank <- cRank\n  ShardOf <- cShard\n  Obs = \"{k['obs']}\"\n  Suppress = {ts([x for x in suppress if x in k['src']])}\n"
                 f"  Cls = {ts(k['cls'])}\n  Reject = {ts(k.get('reject', []))}\n  RejectSrc = {ts(k.get('rejsrc', []))}\n  SendMax = {k['sendmax']}\n  MaxChan = {k['maxchan']}\n"
                 f"  OpKinds = {ts(k.get('ops', []))}\n"
                 f"  LidMode = \"{k.get('lid', 'abstract')}\"\n  Dev = {ts(k.get('dev', []))}\n"
@@ -238,6 +248,11 @@ def main(c):
                  # import-policy changes followed (or not) by soft resets IN
                  ("w9", {"prefix": ["p1", "p2"], "src": ["s1", "s2", "o"], "obs": "o", "cls": ["x", "y"], "ops": ["softin", "filter"], "sendmax": 1, "maxchan": 3}),
                  ("w10", {"prefix": ["p1", "p2"], "src": ["s1", "s2", "o"], "obs": "o", "cls": ["x", "y"], "ops": ["softin", "nhflap"], "scen": "ibgp", "sendmax": 2, "maxchan": 3}),
+                 # a route-reflector client and a confederation-external neighbour observing, two shards
+                 ("w13", {"prefix": ["p1", "p2"], "src": ["s1", "s2", "o"], "obs": "o", "cls": ["x", "y"], "ops": ["nhflap", "filter"], "scen": "rr", "sendmax": 1, "maxchan": 3}),
+                 ("w14", {"prefix": ["p1", "p2"], "src": ["s1", "s2", "o"], "obs": "o", "cls": ["x", "y"], "reject": ["y"], "scen": "rr", "sendmax": 2, "maxchan": 3}),
+                 ("w15", {"prefix": ["p1", "p2"], "src": ["s1", "s2", "o"], "obs": "o", "cls": ["x", "y"], "ops": ["nhflap", "softin"], "scen": "confed", "sendmax": 1, "maxchan": 3}),
+                 ("w16", {"prefix": ["p1", "p2"], "src": ["s1", "s2", "o"], "obs": "o", "cls": ["x", "y"], "ops": ["filter"], "scen": "confed", "sendmax": 2, "maxchan": 3}),
                  # the neighbour's export policy has an RPKI condition (rejects what validates Invalid: one source's routes) and
                  # was accumulated over two assignment requests; alone and together with the class rejection
                  ("w11", {"prefix": ["p1", "p2"], "src": ["s1", "s2", "o"], "obs": "o", "cls": ["x", "y"], "rejsrc": ["s1"], "sendmax": 1, "maxchan": 3}),
